@@ -3,8 +3,6 @@ package encoder
 import (
 	"bytes"
 	"fmt"
-	"strconv"
-	"unsafe"
 
 	"github.com/goccy/go-json/internal/errors"
 )
@@ -246,11 +244,54 @@ func compactNumber(dst, src []byte, cursor int64) ([]byte, int64, error) {
 		break
 	}
 	num := src[start:cursor]
-	if _, err := strconv.ParseFloat(*(*string)(unsafe.Pointer(&num)), 64); err != nil {
-		return nil, 0, err
+	if !validNumber(num) {
+		return nil, 0, errors.ErrSyntax(fmt.Sprintf("invalid number literal %q", num), start)
 	}
 	dst = append(dst, num...)
 	return dst, cursor, nil
+}
+
+// validNumber reports whether s is a number of the JSON grammar:
+// -? (0 | [1-9][0-9]*) (. [0-9]+)? ([eE] [+-]? [0-9]+)?
+func validNumber(s []byte) bool {
+	i, n := 0, len(s)
+	if i < n && s[i] == '-' {
+		i++
+	}
+	if i == n {
+		return false
+	}
+	if s[i] == '0' {
+		i++
+	} else if '1' <= s[i] && s[i] <= '9' {
+		for i < n && '0' <= s[i] && s[i] <= '9' {
+			i++
+		}
+	} else {
+		return false
+	}
+	if i < n && s[i] == '.' {
+		i++
+		if i == n || s[i] < '0' || '9' < s[i] {
+			return false
+		}
+		for i < n && '0' <= s[i] && s[i] <= '9' {
+			i++
+		}
+	}
+	if i < n && (s[i] == 'e' || s[i] == 'E') {
+		i++
+		if i < n && (s[i] == '+' || s[i] == '-') {
+			i++
+		}
+		if i == n || s[i] < '0' || '9' < s[i] {
+			return false
+		}
+		for i < n && '0' <= s[i] && s[i] <= '9' {
+			i++
+		}
+	}
+	return i == n
 }
 
 func compactTrue(dst, src []byte, cursor int64) ([]byte, int64, error) {
